@@ -121,6 +121,11 @@ func glob2(c *Ctx) {
 			ok = true
 			why = "basic type " + u.String()
 		default:
+			if stateless(t) {
+				ok = true
+				why = fmt.Sprintf("type %s has no state (no fields / zero size)", t)
+				break
+			}
 			if w := readOnlyTable(c, g); w == "" {
 				ok = true
 				why = fmt.Sprintf("%s table that the library only reads (indexing, lookup, range, len); never written (GLOB-1) and never handed out", t)
@@ -147,11 +152,30 @@ func glob2(c *Ctx) {
 			v := ir.Unwrap(r.Results[0])
 			if _, isConst := v.(*ssa.Const); isConst {
 				c.OK("singleton "+Q(fn), fn.Pos(), "returns a constant of basic kind: no shared mutable instance")
+			} else if stateless(v.Type()) {
+				c.OK("singleton "+Q(fn), fn.Pos(), "returns a value of a type without state: nothing to share")
 			} else {
 				c.Bad("singleton "+Q(fn), fn.Pos(), "parameterless constructor returns %s, not a constant: instance may be shared and mutable", v)
 			}
 		}
 	}
+}
+
+// stateless: a struct without fields (recursively) or a zero-length array: values of the type cannot
+// differ or be mutated.
+func stateless(t types.Type) bool {
+	switch u := t.Underlying().(type) {
+	case *types.Struct:
+		for i := 0; i < u.NumFields(); i++ {
+			if !stateless(u.Field(i).Type()) {
+				return false
+			}
+		}
+		return true
+	case *types.Array:
+		return u.Len() == 0 || stateless(u.Elem())
+	}
+	return false
 }
 
 var allowedImports = map[string]bool{
